@@ -129,10 +129,6 @@ theorem o0_decside : DecSideOK o0 := by
     · cases h; exact ⟨rfl, by simp [pTy]⟩
     · simp at h
 
-theorem topNorm_cases (t0 : Ty) (v0 : Val) (t : Ty) (v : Val) (h : topNorm t0 v0 = some (t, v)) :
-    (t0 = .any ∧ v0 = .any t v) ∨ (t0 ≠ .any ∧ ¬ (t0 = .error ∧ v0 = .nil) ∧ t = t0 ∧ v = v0) := by
-  cases t0 <;> cases v0 <;> simp [topNorm] at h <;> (obtain ⟨rfl, rfl⟩ := h) <;> simp
-
 def C16_reencode_full : Prop :=
   ∀ (o : Opts) (fuel : Nat) (bs : Bytes) (t : Ty) (v : Val) (rest : Bytes), CachesConsistent o → DecSideOK o →
     bs.length < 4294967295 → decodeRaw o fuel bs = .ok (some (t, v), rest) →
